@@ -102,6 +102,12 @@ def decode (bs : Bytes) : Option Proof :=
       if li.isEmpty then none else
       some { tag := d, d1 := d1, a := a, a1 := a1, b := b, r1 := x1, s1 := x2, li := li, ri := ri }
 
+/-- `RangeProof::extension_degree_from_proof_bytes`: the extension degree a byte string announces in its first byte -/
+def degreeOf (bs : Bytes) : Option Nat :=
+  match bs with
+  | [] => none
+  | t :: _ => if t.toNat < 1 ∨ 6 < t.toNat then none else some t.toNat
+
 /-! ### Theorems (core Lean only) -/
 
 theorem leBytes_leVal (bs : Bytes) : leBytes bs.length (leVal bs) = bs := by
@@ -456,5 +462,16 @@ theorem encode_length (p : Proof) (h : p.wf) : (encode p).length = 1 + 32 * (5 +
   simp only [List.length_cons, List.length_append, encodeScalars_length, leBytes_length,
     encodePairs_length _ _ h.lr_len h.li_len h.ri_len, h.a_len, h.a1_len, h.b_len, h.d1_len]
   omega
+
+/-- whatever `decode` accepts announces, in its first byte, the degree of the decoded proof -/
+theorem degreeOf_decode {bs : Bytes} {p : Proof} (h : decode bs = some p) : degreeOf bs = some p.tag := by
+  have hs := decode_shape h
+  have he := encode_decode h
+  rw [← he]
+  simp only [encode, degreeOf]
+  have h1 : (UInt8.ofNat p.tag).toNat = p.tag := by
+    have : p.tag < 256 := by omega
+    simp [UInt8.toNat_ofNat, Nat.mod_eq_of_lt this]
+  rw [h1, if_neg (by omega)]
 
 end Model.Codec
